@@ -251,6 +251,16 @@ def exists(lo, hi, f):
     return any(f(i) for i in range(lo, hi))
 
 
+_ORIGIN = {}  # id(entry copy) -> live object (filled by replay.snapshot)
+_KEEP = []
+
+
+def same(a, b):
+    """object identity that also works across `old`: natively the entry snapshot holds copies, so `old.x is y`
+    would always be false; same(old.x, y) asks whether y is the object that x was at entry"""
+    return _ORIGIN.get(id(a), a) is _ORIGIN.get(id(b), b)
+
+
 def implies(a, b):
     return (not a) or bool(b)
 
